@@ -38,29 +38,6 @@ Definition prop_model_raw (args : list bytes) : bytes :=
   end.
 
 (* ---------- specification oracle ---------- *)
-Fixpoint nodup_keys (seen : list bytes) (m : list (bytes * json)) : bool :=
-  match m with
-  | [] => true
-  | (k, _) :: m' => negb (mem_bytes k seen) && nodup_keys (k :: seen) m'
-  end.
-
-(* values the specification can speak about without saying how a parser treats them: unique
-   keys, valid UTF-8, integers that every implementation reads alike *)
-Fixpoint plain_value (j : json) : bool :=
-  match j with
-  | JNum raw => num_safe raw
-  | JStr s => bytes_eqb (utf8_sanitize s) s
-  | JArr l => forallb plain_value l
-  | JObj m =>
-      nodup_keys [] m &&
-      (fix go (m : list (bytes * json)) : bool :=
-         match m with
-         | [] => true
-         | (k, v) :: m' => bytes_eqb (utf8_sanitize k) k && plain_value v && go m'
-         end) m
-  | _ => true
-  end.
-
 Definition lower (s : bytes) : bytes := map (fun c => if in_rng 65 90 c then c + 32 else c) s.
 
 (* an event: an object with unique keys none of which differs from a keep-list key only by
